@@ -30,7 +30,7 @@ MCNext ==
     \/ \E out \in {"acc", "rej"}, g \in Steps : Refine(out, g) /\ UNCHANGED nmods
     \/ (AcceptEval /\ UNCHANGED nmods)
     \/ \E fl \in Flags, ch \in {"arrive", "land", "fast", "normal"}, g \in Steps :
-          Callback(fl, ch, g) /\ nmods' = IF fl = "Modified" THEN nmods + 1 ELSE nmods
+          (\E xm \in 0..S : Callback(fl, ch, g, xm)) /\ nmods' = IF fl = "Modified" THEN nmods + 1 ELSE nmods
     \/ \E ch \in {"arrive", "land", "fast", "normal"}, g \in Steps : ModEval(ch, g) /\ UNCHANGED nmods
     \/ (Done /\ UNCHANGED nmods)
 
